@@ -15,10 +15,17 @@ mode, entry length, password, primitive triple and implementation of `Box<dyn Ae
 `CtrState.new` is `Typed` (`Tie.AesCtr.new_typed`), `Tie.AesCtr.tie_aes_read_keystream` applies to the reader
 `validate` returns.
 
+`cipher_from_mode` and `AesCtrZipKeyStream::new` are translated as well (helper t6l3): `tie_keystream_new`
+(= `CtrState.new` under the key, or the panic of `GenericArray::from_slice` on a key that does not have the key size
+of `C::Cipher`), `tie_cipher_from_mode` (the boxed key stream of the mode's kind, if the key has the mode's key
+length: `kind_keyLen` ties the `impl AesKind for AesNNN` items to `AesMode::key_length`), and
+`tie_aes_validate_keystream` instantiates `Box<dyn AesCipher>` with the translated key stream.
+
 Trusted vocabulary (`Basic/RsAes.lean`, `Tie/AesVocab.lean`): PBKDF2 as a function of password, salt, ROUNDS and
 output length — instantiated with the model's (1000-round) `P.pbkdf2` for 1000 rounds and an arbitrary unrelated
-function `Q` otherwise, so another iteration count breaks the equation —; `cipher_from_mode` = a key stream in
-its initial state if the key has the length of the mode, else a panic; `Hmac::new_from_slice` accepts every key.
+function `Q` otherwise, so another iteration count breaks the equation —; the key sizes 16 / 24 / 32 of
+`aes::Aes128` / `Aes192` / `Aes256`; `Box::new(x) as Box<dyn AesCipher>` is an arbitrary function `bx` of the key
+stream into the states of the trait object; `Hmac::new_from_slice` accepts every key.
 Hypotheses: `P.WF` (PBKDF2 fills the buffer it is given: a fact of the Rust signature), the entry length below
 2^64.  `self` is consumed, so the inner reader's state after a FAILED validate is not compared.
 -/
@@ -28,11 +35,41 @@ open ZipVerif ZipVerif.Model.Aes ZipVerif.Tie.Layers ZipVerif.Tie.AesLayer ZipVe
 
 variable {σ : Type}
 
-/-- `cipher_from_mode` for an implementation `D` of `Box<dyn AesCipher>` whose states are `emb key ctr`: a key
-stream in its initial state, if the key has the length of the mode (else `GenericArray::from_slice` panics) -/
-@[instance_reducible] def fromModeOf (D : Rs.AesDyn) (emb : Bytes → CtrState → D.Cipher) : @Rs.AesFromMode D :=
-  @Rs.AesFromMode.mk D (fun mode key =>
-    if key.length = (Tie.Aes.toModel mode).keyLength then some (emb key CtrState.new) else none)
+/-- the type of `Box::new(x) as Box<dyn AesCipher>` for an implementation `D` of `Box<dyn AesCipher>` -/
+abbrev BoxFn (D : Rs.AesDyn) : Type 1 := {C : Type} → Gen.AesCtrZipKeyStream C → D.Cipher
+
+/-- the parameter `Rs.AesBox` of the generated code := an arbitrary boxing function `bx` -/
+@[instance_reducible] def boxOf (D : Rs.AesDyn) (bx : BoxFn D) : @Rs.AesBox D := @Rs.AesBox.mk D bx
+
+/-- the kind `cipher_from_mode` chooses for a mode -/
+def kindOf : Gen.AesMode → Type
+  | .Aes128 => Gen.Aes128
+  | .Aes192 => Gen.Aes192
+  | .Aes256 => Gen.Aes256
+
+/-- the state of `Box<dyn AesCipher>` that stands for the model's key stream `(key, ctr)` of an entry of mode `mode`:
+the boxed translated key stream of the mode's kind -/
+def embOf (D : Rs.AesDyn) (bx : BoxFn D) (mode : Gen.AesMode) (key : Bytes) (ctr : CtrState) : D.Cipher :=
+  bx (toGen (C := kindOf mode) key ctr)
+
+/-- **`AesCtrZipKeyStream::<C>::new(key)`** = the model's `CtrState.new` under `key`, or the panic of
+`GenericArray::from_slice` when the key does not have the key size of `C::Cipher`. -/
+theorem tie_keystream_new (C : Type) [Rs.AesKind C] (key : Bytes) :
+    Gen.AesCtrZipKeyStream.new (C := C) key =
+      if key.length = Rs.AesKind.keyLen C then some (toGen key CtrState.new) else none := by
+  unfold Gen.AesCtrZipKeyStream.new Rs.AesBlock.new
+  by_cases h : key.length = Rs.AesKind.keyLen C
+  · simp only [h, if_true, Id.run, Rs.L.id_pure]
+    rfl
+  · simp only [h, if_false, Id.run, Rs.L.id_pure]
+
+/-- the key sizes of the three kinds are the key lengths of the modes (`AesMode::key_length`, Tie.Aes) -/
+theorem kind_keyLen (mode : Gen.AesMode) :
+    (match mode with
+      | .Aes128 => Rs.AesKind.keyLen Gen.Aes128
+      | .Aes192 => Rs.AesKind.keyLen Gen.Aes192
+      | .Aes256 => Rs.AesKind.keyLen Gen.Aes256) = (Tie.Aes.toModel mode).keyLength := by
+  cases mode <;> rfl
 
 /-- the outcome of a generated function in the vocabulary of the model -/
 def cls {α : Type} : Rs.IoRes α → Out α
@@ -78,23 +115,36 @@ theorem sliceFrom_ofNat (bs : Bytes) {n : Nat} (hn : n < 2 ^ 64) :
 theorem vecZeros_length {n : Nat} (hn : n < 2 ^ 64) : (Rs.vecZeros (UInt64.ofNat n)).length = n := by
   simp [Rs.vecZeros, ofNat_toNat_small hn]
 
-theorem fromMode_eq (D : Rs.AesDyn) (emb : Bytes → CtrState → D.Cipher) (mode : Gen.AesMode) (key : Bytes) :
-    @Rs.AesFromMode.cipher_from_mode D (fromModeOf D emb) mode key =
-      if key.length = (Tie.Aes.toModel mode).keyLength then some (emb key CtrState.new) else none := rfl
+/-- **`cipher_from_mode(mode, key)`** = the boxed key stream of the mode's kind in its initial state, if the key has
+the key length of the mode; else a panic. -/
+theorem tie_cipher_from_mode (D : Rs.AesDyn) (bx : BoxFn D) (mode : Gen.AesMode) (key : Bytes) :
+    @Gen.cipher_from_mode D (boxOf D bx) mode key =
+      if key.length = (Tie.Aes.toModel mode).keyLength then some (embOf D bx mode key CtrState.new) else none := by
+  unfold Gen.cipher_from_mode
+  rw [← kind_keyLen mode]
+  cases mode
+  · simp only [Id.run, Rs.L.id_pure, Rs.L.id_bind, tie_keystream_new]
+    by_cases hk : key.length = Rs.AesKind.keyLen Gen.Aes128 <;> simp only [hk, if_true, if_false] <;> rfl
+  · simp only [Id.run, Rs.L.id_pure, Rs.L.id_bind, tie_keystream_new]
+    by_cases hk : key.length = Rs.AesKind.keyLen Gen.Aes192 <;> simp only [hk, if_true, if_false] <;> rfl
+  · simp only [Id.run, Rs.L.id_pure, Rs.L.id_bind, tie_keystream_new]
+    by_cases hk : key.length = Rs.AesKind.keyLen Gen.Aes256 <;> simp only [hk, if_true, if_false] <;> rfl
 
 /-- **`AesReader::validate` is the model's `validate`**: same outcome (a reader in the same state / wrong
 password / error kind / panic) for every inner reader, primitive triple, mode, entry length and password, and
 for every implementation of `Box<dyn AesCipher>` (`D`, `emb`).  `self` is consumed by the Rust function, so the
 inner reader's state after a failure is not part of the result. -/
 theorem tie_aes_validate (P : AesPrims) (Q : Bytes → Bytes → UInt32 → Nat → Bytes) (hW : P.WF) (D : Rs.AesDyn)
-    (emb : Bytes → CtrState → D.Cipher) (S : Src σ) (reader : σ) (mode : Gen.AesMode) (dl : Option Nat)
+    (bx : BoxFn D) (S : Src σ) (reader : σ) (mode : Gen.AesMode) (dl : Option Nat)
     (hdl : ∀ n, dl = some n → n < 2 ^ 64) (pw : Bytes) :
-    cls (@Gen.AesReader.validate (primsOf P Q) D (fromModeOf D emb) σ (readOfA S)
+    cls (@Gen.AesReader.validate (primsOf P Q) D (boxOf D bx) σ (readOfA S)
         ⟨reader, mode, dl.map UInt64.ofNat⟩ pw) =
-      eraseMsg (mapOk (fun o => o.map (toGenD D emb)) (validate P S (Tie.Aes.toModel mode) dl reader pw).1) := by
+      eraseMsg (mapOk (fun o => o.map (toGenD D (embOf D bx mode)))
+        (validate P S (Tie.Aes.toModel mode) dl reader pw).1) := by
   unfold Gen.AesReader.validate validate
   have hk : (Tie.Aes.toModel mode).keyLength ≤ 32 := by cases mode <;> decide
-  simp only [Id.run, Rs.L.id_pure, Tie.Aes.tie_salt_length, Tie.Aes.tie_key_length, fromMode_eq, AesMode.saltLength]
+  simp only [Id.run, Rs.L.id_pure, Tie.Aes.tie_salt_length, Tie.Aes.tie_key_length, tie_cipher_from_mode, AesMode.saltLength]
+  generalize embOf D bx mode = emb
   generalize (Tie.Aes.toModel mode).keyLength = k at hk ⊢
   have two : (2 : UInt64) = UInt64.ofNat 2 := rfl
   have hpv : Gen.PWD_VERIFY_LENGTH = UInt64.ofNat 2 := rfl
@@ -149,5 +199,29 @@ theorem tie_aes_validate (P : AesPrims) (Q : Bytes → Bytes → UInt32 → Nat 
         by_cases hv : pvv = List.drop (2 * k) dk
         · simp [hv, cls, eraseMsg, mapOk, toGenD]
         · simp [hv, cls, eraseMsg, mapOk]
+
+/-! ### `Box<dyn AesCipher>` := the translated key stream
+
+With the translated `AesCtrZipKeyStream` as the member of `Rs.AesDyn` (`Tie.AesCtr.dynGen`) and "forget the type
+parameter" as the boxing function, the reader `validate` returns is the one `Tie.AesCtr.tie_aes_read_keystream` is
+about: from `validate` to the last `read` nothing but PBKDF2, the AES block function and HMAC is vocabulary. -/
+
+/-- `Box::new(x) as Box<dyn AesCipher>` for the translated key stream: the same fields (`C` is a phantom parameter
+of the generated structure) -/
+def forgetKind : BoxFn (dynGen P Unit) := fun {_} x => ⟨x.counter, x.cipher, x.buffer, x.pos⟩
+
+theorem embOf_forgetKind (P : AesPrims) (mode : Gen.AesMode) :
+    embOf (dynGen P Unit) (forgetKind (P := P)) mode = fun k st => AesCtr.toGen k st := by
+  cases mode <;> rfl
+
+/-- **`AesReader::validate` with the translated key stream behind `Box<dyn AesCipher>`** returns the reader state
+`toGenD (dynGen P Unit) toGen` of the model's validated reader. -/
+theorem tie_aes_validate_keystream (P : AesPrims) (Q : Bytes → Bytes → UInt32 → Nat → Bytes) (hW : P.WF)
+    (S : Src σ) (reader : σ) (mode : Gen.AesMode) (dl : Option Nat) (hdl : ∀ n, dl = some n → n < 2 ^ 64) (pw : Bytes) :
+    cls (@Gen.AesReader.validate (primsOf P Q) (dynGen P Unit) (boxOf (dynGen P Unit) (forgetKind (P := P))) σ (readOfA S)
+        ⟨reader, mode, dl.map UInt64.ofNat⟩ pw) =
+      eraseMsg (mapOk (fun o => o.map (toGenD (dynGen P Unit) (fun k st => AesCtr.toGen k st)))
+        (validate P S (Tie.Aes.toModel mode) dl reader pw).1) := by
+  rw [tie_aes_validate P Q hW (dynGen P Unit) (forgetKind (P := P)) S reader mode dl hdl pw, embOf_forgetKind]
 
 end ZipVerif.Tie.AesValidate
